@@ -229,7 +229,7 @@ Definition step (s : state) (o : op) : state * res :=
   | ODfLablist tag maxlen =>
       if sess s then (s, RUnspec) else
       if tag =? 0 then (s, RFail) else
-      if maxlen <? 2 then (s, RUnspec) else
+      if maxlen <? 1 then (s, RUnspec) else
       let orefs := map snd (filter (fun o => fst o =? tag) objects) in
       if zlen orefs =? 0 then (s, RFail) else      (* no object of that tag: nothing to list, the call fails *)
       (s, ROk (zlen orefs :: orefs)
